@@ -122,7 +122,120 @@ func c05Gen(tier string, seed int64) []fw.Case {
 		dd := d
 		cases = append(cases, fw.Case{Name: fmt.Sprintf("%s/%s/abandoned-writer", d.Role, paramsKey(d.Params)), Desc: dd, Run: func(r *fw.R) { c05AbandonedWriter(r, dd) }})
 	}
+	// targeted: a stale writer handle - the usual `defer w.Close()` after an explicit `w.Close()`, or a late Write -
+	// is used after ANOTHER goroutine has begun its own message: the stale calls must not end, extend or
+	// unlock that message
+	for i := 0; i < tierPick(tier, 30, 500); i++ {
+		d := c05Desc{Seed: rng.U64(), Role: bothRoles[i%2], Params: allParams[(i/2)%len(allParams)], Thr: []int{0, 1 << 20}[(i/10)%2], Closer: "stale-writer-handle", Peer: "raw", Writers: 3, PerW: 1}
+		dd := d
+		cases = append(cases, fw.Case{Name: fmt.Sprintf("%s/%s/stale-writer-handle", d.Role, paramsKey(d.Params)), Desc: dd, Run: func(r *fw.R) { c05StaleHandle(r, dd) }})
+	}
 	return cases
+}
+
+// c05StaleHandle: W1 writes a message through Writer and closes it. W2 takes the writer and streams the first
+// part of its message. W1 then uses its old handle again (a second Close as a deferred Close does, a late
+// Write, or both) while W3 is queued with a one-shot Write. W2 finishes. The peer must receive the three
+// messages whole, one after the other.
+func c05StaleHandle(r *fw.R, d c05Desc) {
+	r.SetSample(d)
+	setPerturb(d.Seed, 0)
+	c, libEnd, peerEnd, err := libConn(d.Role, d.Params, d.Thr, xport.Plan{}, xport.Plan{})
+	if err != nil {
+		r.Violate("C05/attach-failed", err.Error(), "")
+		return
+	}
+	defer c.CloseNow()
+	defer peerEnd.Close()
+	peer := newRawPeer(peerEnd, d.Role, d.Params, d.Seed)
+	peer.AutoPong = true
+	peer.Start()
+	base, cancelAll := context.WithTimeout(context.Background(), 60*time.Second)
+	defer cancelAll()
+	rng := fw.NewRand(d.Seed)
+	stale := []string{"Close", "Write", "Write+Close", "Close+Close"}[rng.Intn(4)]
+	what := fmt.Sprintf("%s %s thr=%d stale-writer-handle(%s)", d.Role, paramsKey(d.Params), d.Thr, stale)
+	typ := []websocket.MessageType{websocket.MessageBinary, websocket.MessageText}[rng.Intn(2)]
+	w1, err := c.Writer(base, typ)
+	if err == nil {
+		_, err = w1.Write(tagPayload(1, 0, 50+rng.Intn(9000)))
+	}
+	if err == nil {
+		err = w1.Close()
+	}
+	if err != nil {
+		r.Violate("C05/write-failed", what+": first writer: "+err.Error(), "")
+		return
+	}
+	body2 := tagPayload(2, 0, 2000+rng.Intn(30000))
+	cut := 1 + rng.Intn(len(body2)-1)
+	w2, err := c.Writer(base, websocket.MessageBinary)
+	if err == nil {
+		_, err = w2.Write(body2[:cut])
+	}
+	if err != nil {
+		r.Violate("C05/write-failed", what+": second writer: "+err.Error(), "")
+		return
+	}
+	// W3 queues for its turn (it may give up: its context is short only in half of the cases)
+	var wg sync.WaitGroup
+	wg.Add(1)
+	d3 := 10 * time.Second
+	if rng.Bool() {
+		d3 = 30 * time.Millisecond
+	}
+	go func() {
+		defer wg.Done()
+		ctx3, c3 := context.WithTimeout(base, d3)
+		defer c3()
+		c.Write(ctx3, websocket.MessageBinary, tagPayload(3, 0, 300))
+	}()
+	time.Sleep(time.Duration(rng.Intn(3)) * time.Millisecond)
+	staleOK := 0
+	for _, call := range strings.Split(stale, "+") {
+		var e error
+		if call == "Close" {
+			e = w1.Close()
+		} else {
+			_, e = w1.Write([]byte("STALE-WRITER-BYTES"))
+		}
+		if e == nil {
+			staleOK++
+		}
+	}
+	time.Sleep(time.Duration(rng.Intn(3)) * time.Millisecond)
+	_, err = w2.Write(body2[cut:])
+	if err == nil {
+		err = w2.Close()
+	}
+	wg.Wait()
+	time.Sleep(2 * time.Millisecond)
+	c.CloseNow()
+	peer.WaitEnd(10 * time.Second)
+	conf := &wire.Conform{FromClient: d.Role == RoleClient, P: d.Params}
+	conf.Write(libEnd.Sent())
+	for _, v := range conf.Violations {
+		r.Violate("C05/nonconformant-stream/"+vioClass(v), fmt.Sprintf("%s (%d stale calls returned nil; second writer's result: %v): %s", what, staleOK, err, v), "frames: "+tail(string(conf.FrameLog), 100))
+	}
+	seen2 := false
+	for i, m := range conf.Messages {
+		id, _, e := checkTagged(m.Data)
+		if e != nil {
+			r.Violate("C05/mixed-or-corrupt-message/"+comprKey(m.Compressed), fmt.Sprintf("%s (%d stale calls returned nil): message %d (%d bytes): %v", what, staleOK, i, len(m.Data), e), "frames: "+tail(string(conf.FrameLog), 100))
+			continue
+		}
+		if id == 2 {
+			seen2 = bytes.Equal(m.Data, body2)
+			if !seen2 {
+				r.Violate("C05/mixed-or-corrupt-message/"+comprKey(m.Compressed), fmt.Sprintf("%s: the second writer's message arrived with %d of %d bytes", what, len(m.Data), len(body2)), "")
+			}
+		}
+	}
+	if err == nil && !seen2 {
+		r.Violate("C05/message-lost/stale-writer-handle", fmt.Sprintf("%s: the second writer's Write and Close returned nil, its message is not on the wire as written", what), "frames: "+tail(string(conf.FrameLog), 100))
+	}
+	r.Count("stale_writer_handle_calls_inside_another_writers_message", 1)
+	r.Key("%s/%s/stale-writer-handle/%s/stale-calls-returned-nil=%d", d.Role, paramsKey(d.Params), stale, staleOK)
 }
 
 // c05AbandonedWriter: W1 streams the beginning of a message (at least one frame is on the wire), its context
